@@ -162,3 +162,11 @@ add("C22", "exploration", ["dbh"], dbh("c22", ["--n", "480"], ["--n", "8000"]),
     "selected back as the type and updated through the id field (update visible, exact dump of all other elements unchanged).",
     "An update that turns Some(x) into None is not judged: None fields are not written, and the property does not state that an absent field removes a stored key.",
     "DESIGN.md §6 C22")
+
+add("C32", "fault_enumeration", ["dbh"], dbh("c32", ["--n", "24"], ["--n", "200"]),
+    "fault injection at storage calls through a public StorageData wrapper + before/after dump, model monitors and reopen oracle",
+    "For generated histories, the k-th write/resize call (a sample per query in the quick tier, every call in the thorough tier) and every log "
+    "truncation (flush) of one query fails once: the query must return Err, leave no effect (order-insensitive dump), later valid queries must "
+    "succeed with the model monitors holding, and everything must survive close + reopen with plain DbFile. Write/resize faults are a known, "
+    "unrepaired finding (KF-C32-1); flush faults and 'faulted query reports success' are live verdicts.",
+    "Faults are injected before the call reaches the real storage, so file and memory halves never diverge by themselves.", "DESIGN.md §6 C32")
